@@ -15,6 +15,10 @@
 
 typedef long double ld;
 typedef long double _Complex ldc;
+#ifndef CMPLXL     /* clang 14 with glibc headers does not provide the C11 macro */
+static inline ldc vf_cmplxl(ld re, ld im) { union { ldc z; ld p[2]; } u; u.p[0] = re; u.p[1] = im; return u.z; }
+#define CMPLXL(a, b) vf_cmplxl((a), (b))
+#endif
 
 /* ------------------------------------------------------------------ rng */
 typedef struct { uint64_t s; } vf_rng;
